@@ -310,9 +310,11 @@ func AllKindAttrs() []jsonapi.Attr {
 // two-way pairs reciprocate, FromType is the owner and FromOne mirrors the
 // inverse's ToOne.
 func CoherentSchema(t *rapid.T, o SchemaOpts) *SchemaSpec {
-	n := rapid.IntRange(o.MinTypes, o.MaxTypes).Draw(t, "ntypes")
+	n := rapid.IntRange(o.MinTypes, Upto(t, "ntypes", o.MaxTypes)).Draw(t, "ntypes")
 	typeNames := NamePool(t, n, "tname")
-	fieldPool := NamePool(t, 6, "fname")
+	fieldPool := NamePool(t, Upto(t, "nfnames", 6), "fname")
+	o.MaxAttrs = Upto(t, "maxattrs", o.MaxAttrs)
+	o.MaxRelEdges = Upto(t, "maxedges", o.MaxRelEdges)
 	if o.AllowTypeField {
 		fieldPool = append(fieldPool, "type")
 	}
